@@ -3,6 +3,8 @@
 package NoKV
 
 import (
+	"hash/crc32"
+
 	"github.com/feichai0017/NoKV/kv"
 	"github.com/feichai0017/NoKV/lsm"
 	"github.com/feichai0017/NoKV/manifest"
@@ -63,7 +65,7 @@ func (db *DB) VerifOracleState() (nextTs, txnDoneUntil, readDoneUntil uint64) {
 
 // VerifKeySources lists every source holding entries for (cf, key) in lookup
 // order, with value pointers resolved through the value log (the first 48
-// bytes and the length of the resolved value are kept in Value/ValueLen).
+// bytes, the length and a CRC-32 of the resolved value are kept in Value/ValueLen/Sum).
 func (db *DB) VerifKeySources(cf kv.ColumnFamily, key []byte) []VerifKeySource {
 	raw := db.lsm.VerifKeySources(kv.InternalKey(cf, key, 0))
 	out := make([]VerifKeySource, 0, len(raw))
@@ -88,6 +90,7 @@ func (db *DB) VerifKeySources(cf kv.ColumnFamily, key []byte) []VerifKeySource {
 				}
 			}
 			ke.ValueLen = len(val)
+			ke.Sum = crc32.ChecksumIEEE(val)
 			if len(val) > 48 {
 				val = val[:48]
 			}
@@ -115,5 +118,6 @@ type VerifKeyEntry struct {
 	Pointer   bool
 	Value     []byte
 	ValueLen  int
+	Sum       uint32 // CRC-32 (IEEE) of the whole resolved value
 	Err       string
 }
